@@ -4,6 +4,7 @@ package main
 // checks, legacy-control probes (C17) and allocation measurements (C18).
 
 import (
+	"encoding/hex"
 	"fmt"
 	"os"
 	"os/exec"
@@ -283,6 +284,28 @@ func (c *ctx) argOps() {
 			c.h.stats["arg"]++
 		}
 	}
+	// a Go type that nests itself without end (a map needs no annotation to stop the parser): rejected
+	// like any other unsupported definition, directly and nested in a valid type (D20)
+	for _, cs := range []struct {
+		kind string
+		arg  interface{}
+	}{{"rectype", &argRecHolder{}}, {"recnested", &argRecOuter{}}} {
+		s := safely(func() string { return "ok:" + strconv.Itoa(frugal.EncodedSize(cs.arg)) })
+		e := safely(func() string {
+			if _, err := frugal.EncodeObject(make([]byte, 16), nil, cs.arg); err != nil {
+				return "err"
+			}
+			return "ok"
+		})
+		d := safely(func() string {
+			if _, err := frugal.DecodeObject([]byte{0}, cs.arg); err != nil {
+				return "err"
+			}
+			return "ok"
+		})
+		c.h.emit(fmt.Sprintf("arg %s -> %s %s %s", cs.kind, s, e, d))
+		c.h.stats["arg"]++
+	}
 	// the same rejected call before and after the type has been used (and cached) by valid calls
 	c.h.emit("arg decstruct -> " + decStructByValue())
 	safely(func() string {
@@ -294,6 +317,42 @@ func (c *ctx) argOps() {
 	})
 	c.h.emit("arg decstruct -> " + decStructByValue())
 	c.h.stats["arg"] += 2
+}
+
+type argEmpty struct{}
+
+type argBigList struct {
+	L []argEmpty `frugal:"1,default,list<argEmpty>"`
+}
+
+// bigLenProbe: a container longer than the wire format's int32 count can say (zero-size elements: no
+// memory needed). The encoder writes uint32(len) and loops uint32(len) times: no error, a list of one.
+func (c *ctx) bigLenProbe() {
+	v := &argBigList{L: make([]argEmpty, 1<<32+1)}
+	buf := make([]byte, 64)
+	res := safely(func() string {
+		n, err := frugal.EncodeObject(buf, nil, v)
+		if err != nil {
+			return "err"
+		}
+		return "ok:" + hex.EncodeToString(buf[:n])
+	})
+	c.h.stats["biglen"]++
+	if res != "err" {
+		c.h.oracle("C04", "a list of 2^32+1 elements (length beyond int32) was encoded without an error: "+res)
+	}
+}
+
+type argRecMap map[string]argRecMap
+
+type argRecHolder struct {
+	A int32     `frugal:"1,default,i32"`
+	X argRecMap `frugal:"2,default"`
+}
+
+type argRecOuter struct {
+	In *argRecHolder `frugal:"1,optional,argRecHolder"`
+	B  int32         `frugal:"2,default,i32"`
 }
 
 type argS2 struct {
